@@ -14,7 +14,7 @@ from ..common import bits_equal, enc, find_boxes, sig_key
 from ..gen import programs
 
 LEVEL = "exploration"
-RULE = "User primitives P(x1..xn; scale) = scale*(sum c_i sin((i+1)x_i) + prod x_i) registered through every API (defvjp positional with None entries, defvjp(argnums=), defvjp_argnum, defvjp_argnums, defjvp with callables/'same'/None, defjvp_argnum, defjvp_argnums, def_linear) for arity 1-4 (quick) / 1-5 (thorough), every non-empty subset of differentiated positions, all arguments at one trace level or split over 2-3 nested differentiations (mixed partials): enumerated exhaustively. Rule bodies log (argnum, ans, args, kwargs). Several primitives wrapped around one raw callable with exact / straight-through / declared-zero / no rules in three orders of wrapping, registering and first use (each uses its own rules, the rule-less one raises), and re-registration after first use. Rules registered for a higher argument only (argnums= as tuple / generator / iterator / NumPy integers, deprecated methods with argnum=1): routed to that argument, argument 0 raises. Integer- and boolean-valued user primitives with surrogate rules: rules invoked, missing rule raises. checkpoint(f) vs f on random programs: value bits and reverse-mode derivatives of order 1-3. Non-trivial iff the derivative was compared and the rule log inspected; distinct = distinct (api, arity, subset, level split) signatures."
+RULE = "User primitives P(x1..xn; scale) = scale*(sum c_i sin((i+1)x_i) + prod x_i) registered through every API (defvjp positional with None entries, defvjp(argnums=), defvjp_argnum, defvjp_argnums, defjvp with callables/'same'/None, defjvp_argnum, defjvp_argnums, def_linear) for arity 1-4 (quick) / 1-5 (thorough), every non-empty subset of differentiated positions, all arguments at one trace level or split over 2-3 nested differentiations (mixed partials): enumerated exhaustively. Rule bodies log (argnum, ans, args, kwargs). Several primitives wrapped around one raw callable with exact / straight-through / declared-zero / no rules in three orders of wrapping, registering and first use (each uses its own rules, the rule-less one raises), and re-registration after first use. Rules registered for a higher argument only (argnums= as tuple / generator / iterator / NumPy integers, deprecated methods with argnum=1): routed to that argument, argument 0 raises. Integer- and boolean-valued user primitives with surrogate rules: rules invoked, missing rule raises. checkpoint(f) vs f on random programs (one argument, nested, keyword, two arguments, ignored arguments, non-prefix subsets of traced arguments, a constant first argument, a factor vanishing exactly at the point): value bits and reverse-mode derivatives of order 1-3. Non-trivial iff the derivative was compared and the rule log inspected; distinct = distinct (api, arity, subset, level split) signatures."
 ASSUMPTIONS = ["the partial derivatives of the generated primitive are pairwise distinct, so routing errors change the value", "missing-rule loudness: any exception type is accepted as 'raises'"]
 EXHAUSTIVE = {"C17": "arity x non-empty subset x registration API x level split, up to arity 4 (quick) / 5 (thorough)"}
 
